@@ -797,12 +797,16 @@ class PenalizedSystem:
                 diagonal_data = diagonal_data[::-1]
             self.original_diagonals = diagonal_data
         else:
+            # convert between lower and full bands using the non-reversed ordering since the
+            # conversions assume the LAPACK ordering of the diagonals
+            if self.reversed:
+                self.original_diagonals = self.original_diagonals[::-1]
             if self.lower and not lower_only:
                 self.original_diagonals = _lower_to_full(self.original_diagonals)
-            if (self.reversed and not needs_reversed) or (not self.reversed and needs_reversed):
-                self.original_diagonals = self.original_diagonals[::-1]
-            if not self.lower and lower_only:
+            elif not self.lower and lower_only:
                 self.original_diagonals = self.original_diagonals[self.diff_order:]
+            if needs_reversed:
+                self.original_diagonals = self.original_diagonals[::-1]
 
         self.diff_order = diff_order
         self.lower = lower_only
